@@ -253,7 +253,7 @@ Print Assumptions C11_untouched_first_hello.
    extended_master_secret, server_name), if it completes, completes exactly as the untouched one *)
 Theorem C11_first_hello_steering_harmless :
   forall ck sk seeded t o,
-    t_sh_alpn t = 0 ->
+    t_sh_alpn t = 0 -> t_sh_suite t = 0 ->
     negotiate12_steered ck sk seeded true t = Ok o ->
     negotiate12_steered ck sk seeded true no_steering = Ok o.
 Proof. exact first_hello_steering_harmless. Qed.
@@ -264,6 +264,22 @@ Theorem C11_unsteered_is_negotiate :
     negotiate12_steered ck sk seeded hv no_steering = negotiate_conn ck sk seeded.
 Proof. exact negotiate12_unsteered. Qed.
 Print Assumptions C11_unsteered_is_negotiate.
+
+(* ---- the ServerHello message hook ("the server's view follows the ServerHello that leaves after the hook"): no
+   association completes on a cipher suite other than the server's choice, and the reported protocol is the one the
+   final ServerHello names, held to the client's own list *)
+Theorem C11_hook_cannot_change_the_suite :
+  forall ck sk seeded hv t o,
+    negotiate12_steered ck sk seeded hv t = Ok o -> t_sh_suite t = 0 \/ t_sh_suite t = o_suite o.
+Proof. exact hook_cannot_change_the_suite. Qed.
+Print Assumptions C11_hook_cannot_change_the_suite.
+
+Theorem C11_hook_alpn_is_the_final_server_hello :
+  forall ck sk seeded hv t o,
+    negotiate12_steered ck sk seeded hv t = Ok o -> t_sh_alpn t <> 0 ->
+    o_alpn o = t_sh_alpn t /\ In (o_alpn o) (c_alpn (k_cfg ck)).
+Proof. exact hook_alpn_is_the_final_server_hello. Qed.
+Print Assumptions C11_hook_alpn_is_the_final_server_hello.
 
 (* ---- "the cipher suite fits the server's key type": true for the key the suite FILTER used (clause pol_suite)
    and, with a single certificate, for the certificate presented ... *)
